@@ -3,3 +3,5 @@ open Datatypes
 val add : nat -> nat -> nat
 
 val eqb : nat -> nat -> bool
+
+val leb : nat -> nat -> bool
